@@ -121,6 +121,11 @@ func (p *Path) callFunction(fn *ssa.Function, args []Value, env []Value) Value {
 	if r, ok := p.stub(fn, args); ok {
 		return r
 	}
+	if len(p.summaries) > 0 {
+		if r, ok := p.applySummary(fn, args); ok {
+			return r
+		}
+	}
 	if fn.Blocks == nil {
 		p.unsupported("call to external function %s", fn)
 	}
@@ -347,6 +352,9 @@ func (p *Path) runFrame(fr *frame) Value {
 	for {
 		fr.visits[block]++
 		if fr.visits[block] > p.unwind+1 {
+			if p.unwindAssume {
+				panic(pathAbort{kind: "assume", msg: "loop bound (stated as an assumption of the claim)"})
+			}
 			panic(pathAbort{kind: "unwind", msg: fmt.Sprintf("loop at %s block %d exceeds unwinding limit %d", fr.fn, block.Index, p.unwind)})
 		}
 		var next *ssa.BasicBlock
@@ -718,6 +726,9 @@ func (p *Path) substr(s, off, n *Term) *Term {
 	for _, d := range p.decomp[s] {
 		// s = d.a ++ d.b
 		la := mkLen(d.a)
+		if d.alen >= 0 {
+			la = mkInt(d.alen)
+		}
 		if off == la && n == mkSub(mkLen(s), la) {
 			return d.b
 		}
@@ -823,7 +834,9 @@ func (p *Path) intConvert(t *Term, to *types.Basic) *Term {
 		r.Add(r, lo)
 		return mkBig(r)
 	}
-	p.rangeOblig = append(p.rangeOblig, mkAnd(mkLe(mkBig(lo), t), mkLe(t, mkBig(hi))))
+	if !rangeWithin(t, lo, hi) {
+		p.rangeOblig = append(p.rangeOblig, mkAnd(mkLe(mkBig(lo), t), mkLe(t, mkBig(hi))))
+	}
 	return t
 }
 
@@ -915,7 +928,9 @@ func (p *Path) binop(op token.Token, x, y Value, xt types.Type) Value {
 					return p.intConvert(r, tb)
 				}
 				lo, hi := intRange(tb)
-				p.rangeOblig = append(p.rangeOblig, mkAnd(mkLe(mkBig(lo), r), mkLe(r, mkBig(hi))))
+				if !rangeWithin(r, lo, hi) {
+					p.rangeOblig = append(p.rangeOblig, mkAnd(mkLe(mkBig(lo), r), mkLe(r, mkBig(hi))))
+				}
 			}
 			return r
 		}
